@@ -88,9 +88,12 @@ def rnd_stream(rng):
         elif r < 0.87:
             out.append({"type": "Comment", "data": rng.choice(["c", "", "-", "--", "a--b", ">", "->", "x-", "--!>", "<!--"])})
         elif r < 0.93:
-            out.append({"type": "Doctype", "name": rng.choice(["html", "HTML", "x"]),
-                        "publicId": rng.choice([None, "", "-//W3C//DTD HTML 4.01//EN", "a\"b"]),
-                        "systemId": rng.choice([None, "", "about:legacy-compat", "a\"b", "a'b", "a\"b'c"])})
+            name = rng.choice(["html", "HTML", "x", "html", None, ""])
+            # a doctype without a name ('<!DOCTYPE>': name '' in etree, None in minidom) never has identifiers in a tree
+            # html5lib builds: the tokenizer emits it at once
+            out.append({"type": "Doctype", "name": name,
+                        "publicId": rng.choice([None, "", "-//W3C//DTD HTML 4.01//EN", "a\"b"]) if name else rng.choice([None, ""]),
+                        "systemId": rng.choice([None, "", "about:legacy-compat", "a\"b", "a'b", "a\"b'c"]) if name else rng.choice([None, ""])})
         elif r < 0.97:
             out.append({"type": "Entity", "name": rng.choice(["amp", "lt", "nbsp", "eacute", "quot", "apos", "notin", "bogus", "AMP"])})
         else:
